@@ -256,6 +256,23 @@ class _Canon(ast.NodeTransformer):
     def visit_Assign(self, node: ast.Assign):
         self.generic_visit(node)
         v = node.value
+        # `self.buf[:0] = e` (prepend in place) -> `self.buf = e + self.buf` for an attribute chain: the same bytes for every
+        # reader of the attribute (a bare local is left alone: there the two differ for an alias of the object)
+        if len(node.targets) == 1 and isinstance(node.targets[0], ast.Subscript) and isinstance(node.targets[0].value, ast.Attribute) and self._chain(node.targets[0].value):
+            sl = node.targets[0].slice
+            if isinstance(sl, ast.Slice) and sl.step is None and isinstance(sl.upper, ast.Constant) and sl.upper.value == 0 and type(sl.upper.value) is int \
+                    and (sl.lower is None or (isinstance(sl.lower, ast.Constant) and sl.lower.value == 0)):
+                import copy as _copy
+
+                base = node.targets[0].value
+                load = _copy.deepcopy(base)
+                for x in ast.walk(load):
+                    if hasattr(x, "ctx"):
+                        x.ctx = ast.Load()
+                store = _copy.deepcopy(base)
+                store.ctx = ast.Store()
+                new = ast.Assign(targets=[store], value=ast.BinOp(left=v, op=ast.Add(), right=load), type_comment=None)
+                return ast.fix_missing_locations(ast.copy_location(new, node))
         if len(node.targets) == 1 and isinstance(v, ast.BinOp) and self._chain(node.targets[0]) and self._chain(v.left):
             t = node.targets[0]
             if ast.dump(t).replace("Store()", "Load()") == ast.dump(v.left):
